@@ -14,6 +14,9 @@ for i in ids:
     d = os.path.join(HERE, "seeded", i)
     meta = json.load(open(os.path.join(d, "meta.json")))
     prop = meta["property"]
+    if meta.get("superseded_by_fix"):
+        print(f"{i:8s} {prop} superseded by a repair in /repo (kept for the record, not applied)", flush=True)
+        continue
     assert subprocess.run(["git", "-C", "/repo", "status", "--porcelain"], capture_output=True, text=True).stdout.strip() == "", "/repo not clean"
     try:
         pf = os.path.join(d, "patch.diff")
